@@ -303,7 +303,7 @@ def _rand_shape(rng, fam):
 
 
 _UNSET = object()
-_AUDIT = True
+_AUDIT = True      # False: only the original stream (used to check that it is unchanged)
 
 
 def cases(tier, seed):
@@ -339,7 +339,8 @@ def cases(tier, seed):
     for _ in range(n):
         yield _rand_case(rng, ops)
     # ---- parameter audit families (own random stream; the stream above is unchanged) -----------
-    if _AUDIT: yield from _audit_cases(tier, seed)
+    if _AUDIT:
+        yield from _audit_cases(tier, seed)
 
 
 def _rand_case(rng, ops, op=None, shape=None, chunks=None, dtype=None, flavour=None, axis=_UNSET):
